@@ -85,10 +85,21 @@ def named_algebras(repo):
     fn = repo.func("algebra.Algebra.fromname")
     doc = ast.get_docstring(fn)
     consts = []
-    for n in ast.walk(fn):
-        if isinstance(n, ast.Constant) and isinstance(n.value, str) and n.value != doc and n.value not in consts \
-                and not re.fullmatch(r"e[0-9a-fA-F]*", n.value) and len(n.value) < 40:
-            consts.append(n.value)
+    # candidate names: string constants of the body and of the module-level constants the body reads (a table of the
+    # named algebras may live at module level)
+    sources = [fn]
+    mod = repo.modules["algebra"].tree
+    read = {n.id for n in ast.walk(fn) if isinstance(n, ast.Name) and isinstance(n.ctx, ast.Load)}
+    for st in mod.body:
+        if isinstance(st, (ast.Assign, ast.AnnAssign)):
+            tg = st.targets if isinstance(st, ast.Assign) else [st.target]
+            if any(isinstance(t, ast.Name) and t.id in read for t in tg) and st.value is not None:
+                sources.append(st.value)
+    for src in sources:
+        for n in ast.walk(src):
+            if isinstance(n, ast.Constant) and isinstance(n.value, str) and n.value != doc and n.value not in consts \
+                    and not re.fullmatch(r"e[0-9a-fA-F]*", n.value) and len(n.value) < 40:
+                consts.append(n.value)
     out = {}
     for name in consts:
         it = make_interp(repo)
@@ -132,7 +143,10 @@ def build_algebra(repo, p=0, q=0, r=0, signature=None, start_index=None, basis=N
     it = make_interp(repo, max_steps=3_000_000)
     it.instance_classes.update({"Algebra": "algebra.Algebra", "BladeDict": "algebra.BladeDict"})
     it.plain_classes.update({"BladeDict": "algebra.BladeDict", "DefaultKeyDict": "algebra.DefaultKeyDict"})
-    it.standins["numpy"] = Obj("module:numpy", {"array": PyFunc(lambda x, *a, **k: list(x), "np.array", True)})
+    # np.array copies; np.asarray / asanyarray hand an array argument back (the user's signature may be an ndarray)
+    it.standins["numpy"] = Obj("module:numpy", {"array": PyFunc(lambda x, *a, **k: list(x), "np.array", True),
+                                                "asarray": PyFunc(lambda x, *a, **k: x, "np.asarray", True),
+                                                "asanyarray": PyFunc(lambda x, *a, **k: x, "np.asanyarray", True)})
     alg = Obj("Algebra", {"p": p, "q": q, "r": r, "signature": signature, "start_index": start_index,
                           "basis": list(basis or []), "graded": False, "pretty_blade": "e", "cse": True,
                           "wrapper": None, "codegen_symbolcls": None, "numspace": {}, "registry": {}})
@@ -281,7 +295,7 @@ def sign_table(ctx):
         check_table(ctx, repo, label, kwargs, f"algebra.Algebra._prepare_signs#{label}", fn)
 
 
-@rule("C01.lazy-eager", props=["C01", "C09"], min_instances=3, mutants=[
+@rule("C01.lazy-eager", props=["C01", "C09", "C02", "C03"], min_instances=3, mutants=[
     ("lazy table stores under a swapped key", ("algebra", "        res = self[key] = self.factory(key)", "        res = self[key[::-1]] = self.factory(key)")),
     ("lazy fill also caches the mirrored entry with a grade-only sign", ("algebra", "            return sign\n\n        if self.d > 6:\n            return DefaultKeyDict(_compute_sign)", "            if not canon_pair_given:\n                signs[J, I] = sign * (-1) ** ((len(eI) - 1) * (len(eJ) - 1))\n            return sign\n\n        if self.d > 6:\n            signs = DefaultKeyDict(_compute_sign)\n            return signs")),
     ("lazy path uses a different spelling source", ("algebra", "                canon_pair = self.bin2canon[I], self.bin2canon[J]", "                canon_pair = self.bin2canon[J], self.bin2canon[I]")),
